@@ -233,3 +233,64 @@ impl<T> DerefMut for RwLockWriteGuard<'_, T> {
         unsafe { &mut *self.lock.data.get() }
     }
 }
+
+/// A thread-local key of the seam (see the `thread_local!` of `lib.rs`): the simulator's key, except that -
+/// as with std - a value whose type needs no destructor is never "destroyed": it stays accessible while
+/// the other thread-locals of an ending thread run their destructors.  (The simulator has dropped the
+/// value by then; what is handed out is a value re-made by the initialiser.)
+pub struct LocalKey<T: 'static> {
+    #[doc(hidden)]
+    pub inner: shuttle::thread::LocalKey<T>,
+}
+
+impl<T: 'static> LocalKey<T> {
+    pub fn with<F, R>(&'static self, f: F) -> R
+    where
+        F: FnOnce(&T) -> R,
+    {
+        self.try_with(f)
+            .expect("cannot access a Thread Local Storage value during or after destruction")
+    }
+
+    pub fn try_with<F, R>(&'static self, f: F) -> Result<R, shuttle::thread::AccessError>
+    where
+        F: FnOnce(&T) -> R,
+    {
+        let mut f = Some(f);
+        match self.inner.try_with(|v| (f.take().unwrap())(v)) {
+            Ok(r) => Ok(r),
+            Err(e) => {
+                if std::mem::needs_drop::<T>() {
+                    Err(e)
+                } else {
+                    let v = (self.inner.init)();
+                    Ok((f.take().unwrap())(&v))
+                }
+            }
+        }
+    }
+}
+
+impl<T: 'static + Copy> LocalKey<std::cell::Cell<T>> {
+    pub fn get(&'static self) -> T {
+        self.with(|c| c.get())
+    }
+    pub fn set(&'static self, v: T) {
+        self.with(|c| c.set(v))
+    }
+}
+
+impl<T: 'static> LocalKey<std::cell::RefCell<T>> {
+    pub fn with_borrow<F, R>(&'static self, f: F) -> R
+    where
+        F: FnOnce(&T) -> R,
+    {
+        self.with(|c| f(&c.borrow()))
+    }
+    pub fn with_borrow_mut<F, R>(&'static self, f: F) -> R
+    where
+        F: FnOnce(&mut T) -> R,
+    {
+        self.with(|c| f(&mut c.borrow_mut()))
+    }
+}
